@@ -71,6 +71,46 @@ Proof. exact queries_write_nothing. Qed.
 Print Assumptions C09_queries_write_nothing.
 Close Scope string_scope.
 
+(** ---- the bodies of the Weaver methods, REGENERATED from weaver.py as terms of the glue language (Gen/WeaverGlue.v:
+     weaver_methods), mean — under the interpreter of Model/GlueSem.v — what the hand-written [step] and query functions say ---- *)
+From TW Require Import Model.GlueSem Gen.WeaverGlue Proofs.GlueProofs.
+Open Scope string_scope.
+(** every mutating method: running the regenerated body = one [step] of the model — same final state (also when an
+    exception leaves a partial update behind), same outcome; for every value of the scale attributes *)
+Theorem C09_glue_generated : forall s o xs ys, glue_pre s o ->
+  let r := call_method weaver_methods (Some o) (op_method o) (params_of o) s xs ys in
+  g_s (fst r) = fst (step s o) /\ outcome_res (snd r) = snd (step s o).
+Proof. exact glue_generated. Qed.
+Print Assumptions C09_glue_generated.
+
+(** the constructor *)
+Theorem C09_glue_init : forall s x y xs ys,
+  let r := call_method weaver_methods None "__init__" [("x", match x with Some l => VArr l | None => VNoneV end); ("y", VArr y)] s xs ys in
+  match init x y with
+  | Ok s' => g_s (fst r) = s' /\ snd r = ONormal /\ g_xs (fst r) = 1 /\ g_ys (fst r) = 1
+  | Raise e => snd r = ORaise e /\ g_s (fst r) = s
+  end.
+Proof. exact glue_init. Qed.
+Print Assumptions C09_glue_init.
+
+(** the getters return the stored series and write nothing *)
+Theorem C09_glue_getters : forall s xs ys,
+  (let r := call_method weaver_methods None "get" [] s xs ys in g_s (fst r) = s /\ outcome_pair (snd r) = Ok (wx s, wy s)) /\
+  (let r := call_method weaver_methods None "get_original" [] s xs ys in g_s (fst r) = s /\ outcome_pair (snd r) = Ok (wox s, woy s)) /\
+  (let r := call_method weaver_methods None "get_reference" [] s xs ys in g_s (fst r) = s /\ outcome_pair (snd r) = Ok (wrx s, wry s)) /\
+  (let r := call_method weaver_methods None "__len__" [] s xs ys in g_s (fst r) = s /\ snd r = OReturn (VInt (Z.of_nat (length (wx s))))).
+Proof. exact glue_getters. Qed.
+Print Assumptions C09_glue_getters.
+
+(** the names the bodies call are bound, at module level, to the package functions the interpreter gives them the meaning of *)
+Theorem C09_glue_imports :
+  forall fn, In fn ["integral_matching_reference_stretch"; "repeat"; "trend"; "spline_smooth"; "noise_gauss"; "interpolate"; "truncate"; "normalize"; "append_one_sample"] ->
+  exists m, In (m, fn, fn) weaver_imports /\ In m [".match"; ".process"; ".sorted_array_utils"] /\
+            forall m' n', In (m', n', fn) weaver_imports -> m' = m /\ n' = fn.
+Proof. exact glue_imports. Qed.
+Print Assumptions C09_glue_imports.
+Close Scope string_scope.
+
 Example C09_example :
   match init (Some [qz 0; qz 1; qz 2; qz 4]) [qz 1; qz 3; qz 3; qz 0] with
   | Ok s0 =>
